@@ -63,7 +63,7 @@ def _cases(draw, tier):
     op = draw(st.sampled_from(BIN if kind == "bin" else UN))
     heavy = op in ("inv", "div", "sw", "proj", "outerexp")
     cap = 3 if heavy else 5
-    names = list(draw(st.permutations(NAMES)))
+    names = [f"q{i}" for i in range(40, 0, -1)] + list(draw(st.permutations(NAMES)))     # pop() takes from NAMES first; spare names for big graded operands
     graded = draw(st.integers(0, 5)) == 0 and not heavy and op not in ("norm", "normalized")
     if graded:
         cfg["basis"] = None
@@ -216,7 +216,7 @@ def evaluate(case):
     used = 0
     syms = set()
     for vi, vlist in enumerate(case["valuations"]):
-        valuation = {n: frac(v) for n, v in zip(allnames, vlist)}
+        valuation = {n: frac(vlist[i % len(vlist)]) for i, n in enumerate(allnames)}
         syms = set()
         xs, xn = _build(alg, case["a"], valuation, syms)
         ys = yn = None
